@@ -1,14 +1,17 @@
 import TinysetModel.Proofs.DenseRange
 import TinysetModel.Proofs.CapSpec
 import TinysetModel.Proofs.CoreInst
+import TinysetModel.Proofs.AnyOrderU
 /-! C12 — dense sets of small integers cost about a bit per member.
 Proved: (a) `collect()` of `0..n` ends in the dense bitset whose block is `denseCap (n-1)` words — at most
 `n/4 + 64` bytes (2 bits per member + 64 bytes) — for every `64 ≤ n ≤ 2^31`, consuming no random draw.
-(b) For members inserted in ANY order and any outcome of the random growth, the theorem available is the
-general linear bound of C11 (`8 n + 8` words); the sharper "2 bytes per member + 256 bytes" of the property is
-NOT a theorem here: it is decided by the allocator-observed footprint in the harness (orders: descending,
-random, strided, outside-in, inside-out, prefix-maximum-rest; growth scripts minimal / maximal / random).
-Ascending insertion one at a time is likewise checked by the harness, not proved. -/
+(b) Members below `n ≤ 2^22` inserted one at a time in ANY order (duplicates allowed, not even required to be all of
+`0..n`), for EVERY outcome of the random growth and every fuel: whenever the run returns, the block is at most
+`2 n + 256` bytes (`any_order_u64/u32`; sharper: `4n/7 + 88` resp. `6n/5 + 44`).  The proof is a ghost-bound
+induction through every branch of `insert` with the invariant "dense with a capacity bounded by `n`, or a bitmap
+table of width ≥ 42 (10) with at most `3·keys + 5` buckets, never the plain table".
+Not a theorem: the sharper "2 bits per member + 64 bytes" for ascending one-at-a-time insertion (only (b)'s bound is
+proved for it); the harness measures it. -/
 namespace C12
 open SC
 
@@ -34,7 +37,29 @@ theorem collect_range_layout_u32 (g : Rng D) (fuel : Nat) {n : Nat} (hn : 64 ≤
     ∃ a, fromIter cfg32 g (fuel + 1) (List.range n) d = .ok (.heap n (cfg32.denseCap (n - 1)) cfg32.W a, d) :=
   collect_range_dense32 g fuel hn hn' d
 
-/-- any order, any growth outcome — the proved (weaker) bound: at most `8 n + 8` element words
+/-- **any order, any growth outcome**: SetU64 / Set64<u*> / SetUsize -/
+theorem any_order_u64 (g : Rng D) (fuel : Nat) (n : Nat) (hn : 64 ≤ n) (hn' : n ≤ 2 ^ 22) (xs : List Nat)
+    (hx : ∀ x ∈ xs, x < n) (d d' : D) (r : Rp)
+    (h : insertAll (insert cfg64 g fuel) .empty xs d = .ok (r, d')) : blockBytes cfg64 r ≤ 2 * n + 256 :=
+  SC.any_order_u64 g fuel n hn hn' xs hx d d' r h
+/-- SetU32 -/
+theorem any_order_u32 (g : Rng D) (fuel : Nat) (n : Nat) (hn : 64 ≤ n) (hn' : n ≤ 2 ^ 22) (xs : List Nat)
+    (hx : ∀ x ∈ xs, x < n) (d d' : D) (r : Rp)
+    (h : insertAll (insert cfg32 g fuel) .empty xs d = .ok (r, d')) : blockBytes cfg32 r ≤ 2 * n + 256 :=
+  SC.any_order_u32 g fuel n hn hn' xs hx d d' r h
+/-- the sharper forms, with well-formedness and exact contents -/
+theorem any_order_sharp_u64 (g : Rng D) (fuel : Nat) (n : Nat) (hn' : n ≤ 2 ^ 22) (xs : List Nat)
+    (hx : ∀ x ∈ xs, x < n) (d d' : D) (r : Rp)
+    (h : insertAll (insert cfg64 g fuel) .empty xs d = .ok (r, d')) :
+    blockBytes cfg64 r ≤ 4 * n / 7 + 88 ∧ WF cfg64 r ∧ ∀ x, x ∈ elems cfg64 r ↔ x ∈ xs :=
+  SC.any_order_u64_sharp g fuel n hn' xs hx d d' r h
+theorem any_order_sharp_u32 (g : Rng D) (fuel : Nat) (n : Nat) (hn' : n ≤ 2 ^ 22) (xs : List Nat)
+    (hx : ∀ x ∈ xs, x < n) (d d' : D) (r : Rp)
+    (h : insertAll (insert cfg32 g fuel) .empty xs d = .ok (r, d')) :
+    blockBytes cfg32 r ≤ 6 * n / 5 + 44 ∧ WF cfg32 r ∧ ∀ x, x ∈ elems cfg32 r ↔ x ∈ xs :=
+  SC.any_order_u32_sharp g fuel n hn' xs hx d d' r h
+
+/-- every history (not only insertions), the general linear bound: at most `8 n + 8` element words
     (C11 applied to a history whose high-water mark is `n`) -/
 theorem any_order_partial_u64 (g : Rng D) {r : Rp} {n : Nat} (h : Hist cfg64 g r n) : memUsed cfg64 r ≤ 64 * n + 72 :=
   hist_footprint64 g (fun fuel => coreOK cfg64_ok g fuel) h
